@@ -499,6 +499,17 @@ class Bounds:
             n = name[3:]
             if n in ('zeros', 'ones', 'empty') and e.args:
                 return self.shape_arg(e.args[0], env)
+            if n == 'arange' and e.args and not any(k.arg in ('start', 'stop', 'step') for k in e.keywords):
+                exact = all(isinstance(a_, Rng) and a_.lo == a_.hi for a_ in args[:len(e.args)])
+                if exact and len(e.args) == 1:
+                    return Shp((args[0].lo,))
+                if exact and len(e.args) == 2:
+                    return Shp((args[1].lo - args[0].lo,))
+                if not exact:
+                    # a float-step arange: NumPy computes its length as ceil((stop - start) / step) in floating point and documents that the
+                    # result can be one longer / shorter than the exact quotient - an extent of its own, equal to no other expression
+                    return Shp((Aff.sym('arange@%d' % e.lineno),))
+                return None
             if n in ('eye', 'identity') and e.args:
                 v = args[0]
                 if isinstance(v, Tup) and len(v.items) == 1:
@@ -630,7 +641,13 @@ class Bounds:
                     ok, msg = False, 'index reaches %r but the extent is %r' % (v.hi, E)
                 elif s_hi == 'unknown':
                     w = _witness_negative(E - 1 - v.hi)
-                    if w is not None:
+                    ar = [k_ for k_, c_ in (E - 1 - v.hi).t.items() if str(k_).startswith('arange@') and c_ < 0]
+                    if ar and not any(str(k_).startswith('arange@') for k_ in E.t):
+                        ok, msg = False, ('index runs up to %r, where %s is the length of the float-step np.arange of line %s: NumPy computes that length in '
+                                          'floating point (ceil((stop - start) / step)) and documents that it can come out one larger than the exact '
+                                          'quotient, while the extent here is %r: for such arguments the access is one past the end'
+                                          % (v.hi, ar[0], str(ar[0]).split('@')[1], E))
+                    elif w is not None:
                         # the extent is a contract symbol: every value >= 1 (>= 0 for slack) is a valid input, and for this one the index is outside
                         ok, msg = False, 'index reaches %r but for %s (a valid input) the extent %r is too small by %s' % (v.hi, w[1], E, w[0])
                     else:
